@@ -1097,6 +1097,57 @@ where
         JarKind::Struct
     }
 
+    /// Verification hook: one line per allocated slot (live or deleted) with its lock/stamp
+    /// state, the memos attached to the slot (as `input.rs` does), and the free list.
+    /// Slots do not store their generation: the `id` printed here carries the slot index
+    /// only; generations are visible in the free list and in the owners' `structs=[..]`.
+    /// The free list is a `SegQueue` without an iterator: it is popped and re-pushed in the
+    /// same order (single-threaded use only).
+    #[cfg(salsa_rs_salsa_verif)]
+    fn verif_dump(&self, zalsa: &Zalsa, out: &mut Vec<String>) {
+        for (id, value) in zalsa.table().slots_of::<Value<C>>() {
+            let updated_at = match value.updated_at.load() {
+                Some(r) => r.as_usize().to_string(),
+                None => String::from("none"),
+            };
+            let revisions: Vec<String> = (0..C::TRACKED_FIELD_INDICES.len())
+                .map(|i| value.revisions[i].load().as_usize().to_string())
+                .collect();
+            out.push(format!(
+                "struct {} name={} id={} updated_at={} dur={} revisions=[{}]",
+                self.ingredient_index.as_u32(),
+                C::DEBUG_NAME,
+                id.index(),
+                updated_at,
+                value.durability.index(),
+                revisions.join(",")
+            ));
+            // SAFETY: The memo table belongs to a value that we allocated, so it has the
+            // correct type.
+            let memos = unsafe { self.memo_table_types.attach_memos(&value.memos) };
+            for line in memos.verif_dump() {
+                out.push(format!("smemo key={} {}", id.index(), line));
+            }
+        }
+        let mut free = Vec::new();
+        while let Some(id) = self.free_list.pop() {
+            free.push(id);
+        }
+        for id in &free {
+            self.free_list.push(*id);
+        }
+        let free: Vec<String> = free
+            .iter()
+            .map(|id| format!("{}:{}", id.index(), id.generation()))
+            .collect();
+        out.push(format!(
+            "structfree {} name={} free=[{}]",
+            self.ingredient_index.as_u32(),
+            C::DEBUG_NAME,
+            free.join(",")
+        ));
+    }
+
     fn memo_table_types(&self) -> &Arc<MemoTableTypes> {
         &self.memo_table_types
     }
